@@ -1,5 +1,6 @@
 // ---- property-level spec for C05 / C13 / C15: what merging one declaration into a file must produce ----
 verus! {
+broadcast use {axiom_str_cmp_total, axiom_str_cmp_trans};
 
 pub open spec fn decl_start() -> Seq<char> { "export type "@ }
 // the declared name: first word after the last `export type `
@@ -82,6 +83,142 @@ pub proof fn lemma_to_set_push<T>(s: Seq<T>, x: T)
         if s.push(x).contains(y) { let k = choose|k: int| 0 <= k < s.push(x).len() && s.push(x)[k] == y; if k < s.len() { assert(s[k] == y); assert(s.contains(y)); } }
         if s.contains(y) { let k = choose|k: int| 0 <= k < s.len() && s[k] == y; assert(s.push(x)[k] == y); }
         if y == x { assert(s.push(x)[s.len() as int] == x); }
+    }
+}
+
+// ---- C05 at the abstract level: sorted insertion has a closed form, commutes for different names, keeps the file sorted ----
+// (pure lemmas over the spec functions; `&str <` is only assumed to be a strict total order)
+pub open spec fn name_lt(a: Seq<char>, b: Seq<char>) -> bool { str_lt(decl_name(a), decl_name(b)) }
+// number of leading declarations whose name is smaller than n's
+pub open spec fn lead(ds: Seq<Seq<char>>, n: Seq<char>) -> int
+    decreases ds.len()
+{ if ds.len() > 0 && name_lt(ds[0], n) { 1 + lead(ds.drop_first(), n) } else { 0 } }
+
+pub proof fn lemma_lead(ds: Seq<Seq<char>>, n: Seq<char>)
+    ensures
+        0 <= lead(ds, n) <= ds.len(),
+        forall|k: int| 0 <= k < lead(ds, n) ==> name_lt(#[trigger] ds[k], n),
+        lead(ds, n) < ds.len() ==> !name_lt(ds[lead(ds, n)], n),
+    decreases ds.len()
+{
+    if ds.len() > 0 && name_lt(ds[0], n) {
+        let r = ds.drop_first();
+        lemma_lead(r, n);
+        assert forall|k: int| 0 <= k < lead(ds, n) implies name_lt(#[trigger] ds[k], n) by { if k > 0 { assert(ds[k] == r[k - 1]); } }
+        if lead(ds, n) < ds.len() { assert(ds[lead(ds, n)] == r[lead(r, n)]); }
+    }
+}
+
+// sorted insertion is: the leading smaller declarations, then n, then the rest
+pub proof fn lemma_ins_prefix(ds: Seq<Seq<char>>, n: Seq<char>, i: int)
+    requires 0 <= i <= ds.len()
+    ensures ({
+        let p = lead(ds, n);
+        let (out, placed) = ins_prefix(ds, n, i);
+        if i <= p { !placed && out == ds.take(i) } else { placed && out == ds.take(p).push(n) + ds.subrange(p, i) }
+    })
+    decreases i
+{
+    lemma_lead(ds, n);
+    let p = lead(ds, n);
+    if i > 0 {
+        lemma_ins_prefix(ds, n, i - 1);
+        let (o1, pl1) = ins_prefix(ds, n, i - 1);
+        let d = ds[i - 1];
+        if i - 1 < p {
+            assert(name_lt(d, n));
+            assert(ds.take(i) =~= ds.take(i - 1).push(d));
+        } else if i - 1 == p {
+            assert(!pl1 && !name_lt(d, n));
+            assert(o1.push(n).push(d) =~= ds.take(p).push(n) + ds.subrange(p, i));
+        } else {
+            assert(pl1);
+            assert(o1.push(d) =~= ds.take(p).push(n) + ds.subrange(p, i));
+        }
+    } else {
+        assert(ds.take(0) =~= Seq::<Seq<char>>::empty());
+    }
+}
+pub proof fn lemma_insert_shape(ds: Seq<Seq<char>>, n: Seq<char>)
+    ensures insert_by_name(ds, n) == ds.take(lead(ds, n)).push(n) + ds.skip(lead(ds, n))
+{
+    lemma_lead(ds, n);
+    lemma_ins_prefix(ds, n, ds.len() as int);
+    let p = lead(ds, n);
+    if ds.len() <= p {
+        assert(ds.take(ds.len() as int) =~= ds);
+        assert(ds.skip(p) =~= Seq::<Seq<char>>::empty());
+        assert(ds.push(n) =~= ds.take(p).push(n) + ds.skip(p));
+    } else {
+        assert(ds.subrange(p, ds.len() as int) =~= ds.skip(p));
+    }
+}
+
+pub proof fn lemma_lead_is(ds: Seq<Seq<char>>, n: Seq<char>, m: int)
+    requires 0 <= m <= ds.len(), forall|k: int| 0 <= k < m ==> name_lt(#[trigger] ds[k], n), m < ds.len() ==> !name_lt(ds[m], n)
+    ensures lead(ds, n) == m
+    decreases ds.len()
+{
+    if m > 0 {
+        let r = ds.drop_first();
+        assert(name_lt(ds[0], n));
+        assert forall|k: int| 0 <= k < m - 1 implies name_lt(#[trigger] r[k], n) by { assert(r[k] == ds[k + 1]); }
+        if m - 1 < r.len() { assert(r[m - 1] == ds[m]); }
+        lemma_lead_is(r, n, m - 1);
+    }
+}
+// declarations strictly ascending by name (hence pairwise distinct names)
+pub open spec fn sorted_names(ds: Seq<Seq<char>>) -> bool { forall|i: int, j: int| 0 <= i < j < ds.len() ==> name_lt(#[trigger] ds[i], #[trigger] ds[j]) }
+
+// C05, abstract level: merging two declarations with different names into a name-sorted file gives the same file in either order
+pub proof fn lemma_insert_commutes(ds: Seq<Seq<char>>, a: Seq<char>, b: Seq<char>)
+    requires sorted_names(ds), name_lt(a, b)
+    ensures insert_by_name(insert_by_name(ds, a), b) == insert_by_name(insert_by_name(ds, b), a)
+{
+    lemma_lead(ds, a); lemma_lead(ds, b);
+    let pa = lead(ds, a); let pb = lead(ds, b);
+    // pa <= pb
+    if pb < pa { assert(name_lt(ds[pb], a)); assert(name_lt(ds[pb], b)); }
+    lemma_insert_shape(ds, a); lemma_insert_shape(ds, b);
+    let x = insert_by_name(ds, a); let y = insert_by_name(ds, b);
+    assert(x.len() == ds.len() + 1 && y.len() == ds.len() + 1);
+    // lead(x, b) == pb + 1
+    assert forall|k: int| 0 <= k < pb + 1 implies name_lt(#[trigger] x[k], b) by {
+        if k < pa { assert(x[k] == ds[k]); assert(name_lt(ds[k], a)); }
+        else if k == pa { assert(x[k] == a); }
+        else { assert(x[k] == ds[k - 1]); }
+    }
+    if pb + 1 < x.len() { assert(x[pb + 1] == ds[pb]); }
+    lemma_lead_is(x, b, pb + 1);
+    // lead(y, a) == pa
+    assert forall|k: int| 0 <= k < pa implies name_lt(#[trigger] y[k], a) by { assert(y[k] == ds[k]); }
+    if pa < pb { assert(y[pa] == ds[pa]); } else { assert(y[pa] == b); assert(!name_lt(b, a)); }
+    lemma_lead_is(y, a, pa);
+    lemma_insert_shape(x, b); lemma_insert_shape(y, a);
+    let l = insert_by_name(x, b); let r = insert_by_name(y, a);
+    assert(l.len() == r.len());
+    assert forall|k: int| 0 <= k < l.len() implies l[k] == r[k] by {
+        if k < pa { } else if k == pa { } else if k <= pb { } else if k == pb + 1 { } else { }
+    }
+    assert(l =~= r);
+}
+// and the file stays name-sorted, so the argument iterates over any number of merges
+pub proof fn lemma_insert_keeps_sorted(ds: Seq<Seq<char>>, n: Seq<char>)
+    requires sorted_names(ds), forall|k: int| 0 <= k < ds.len() ==> decl_name(#[trigger] ds[k]) != decl_name(n)
+    ensures sorted_names(insert_by_name(ds, n))
+{
+    lemma_lead(ds, n); lemma_insert_shape(ds, n);
+    let p = lead(ds, n); let x = insert_by_name(ds, n);
+    assert forall|i: int, j: int| 0 <= i < j < x.len() implies name_lt(#[trigger] x[i], #[trigger] x[j]) by {
+        if j < p { } else if i > p { assert(x[i] == ds[i - 1] && x[j] == ds[j - 1]); }
+        else if i < p && j == p { }
+        else if i < p && j > p { assert(x[j] == ds[j - 1]); }
+        else { // i == p < j: n < ds[j-1]: ds[p] is not < n and differs from n, and ds[p] <= ds[j-1]
+            assert(x[i] == n && x[j] == ds[j - 1]);
+            assert(!name_lt(ds[p], n));
+            assert(decl_name(ds[p]) != decl_name(n));
+            if j - 1 > p { assert(name_lt(ds[p], ds[j - 1])); }
+        }
     }
 }
 
